@@ -1438,7 +1438,8 @@ def g_prog_triple(rng, mode):
 def g_frac_prog(rng):
     """A program: 2-4 objects built from text or numbers, then 4-9 operations re-using earlier
     operands and results on either side."""
-    mode = "small" if rng.random() < 0.7 else ("mid" if rng.random() < 0.7 else "wild")
+    r = rng.random()
+    mode = "small" if r < 0.6 else ("mid" if r < 0.8 else "wild")
     steps, ids, with_comps = [], [], []
 
     def fresh():
@@ -1739,7 +1740,7 @@ def run(ctx):
                 "durations in both orders, int +, sum(), comparisons, formatting, to_v1); plus every row of the key table, every distinct "
                 "sum of durations and every distinct duration program (2-4 durations from text a, a/b, a/b/c with 1-3 additive components or "
                 "from numbers, then 4-9 operations + / int + / radd / sum / ==, float, str re-using earlier operands and results on either "
-                "side, x + x included; 70% musical values within the bound, 30% around 1024 and above; after every step every live object "
+                "side, x + x included; 60% musical values within the bound, 20% general small values whose lcm forms often leave the bound, 20% with numerators/denominators 1020..1030 and up to 5000; after every step every live object "
                 "is inspected).")
     ctx.trusted = ["Coq 8.16.1 kernel incl. vm_compute", "reflector + generators + Python<->Coq value printers in harness/props/c07.py",
                    "Python re / str.format (the model's scanner is validated against them on generated lines only)",
@@ -1756,7 +1757,7 @@ def run(ctx):
         if unk:
             ctx.violation("formatter of field(s) %s of %s %s behaves like no codec of the model" % (unk, kind, ver),
                           {"kind": kind, "ver": list(ver), "what": "reflect", "fields": unk}, no_input=True)
-    ok, why = ctx.coq_props(expect_min=40)
+    ok, why = ctx.coq_props(expect_min=42)
     key_oracle(ctx, rows)
     rng = ctx.rng
     per = 12 if ctx.tier == "quick" else 260
@@ -1769,6 +1770,23 @@ def run(ctx):
             except ValueError as e:
                 ctx.count("generator:no_values_for_schema %s %s" % (kind, ver))
                 break
+    for spec in specs:  # distribution of the corner cases the quantifier names
+        for o, n_, t in spec["fields"]:
+            if t[0] in ("list", "listint"):
+                ctx.count("gen:list_length_%d" % len(t[1]))
+            elif t[0] == "float":
+                ctx.count("gen:float_on_decimal_grid" if t[2] else "gen:float_at_x.xxxx5_boundary_or_binary_tie_or_random")
+            elif t[0] in ("frac", "fracsum"):
+                trs = [t[1]] if t[0] == "frac" else t[1]
+                ctx.count("gen:duration_with_%d_components" % len(trs))
+                if any(c[2] is not None for c in trs):
+                    ctx.count("gen:duration_with_tuple_divisor")
+                if any(1020 <= c[0] <= 1030 or 1020 <= c[1] <= 1030 for c in trs):
+                    ctx.count("gen:duration_numerator_or_denominator_1020..1030")
+                if any(c[0] > 1030 or c[1] > 1030 for c in trs):
+                    ctx.count("gen:duration_above_1030")
+            elif t[0] == "none":
+                ctx.count("gen:none(%s)" % n_)
     terms, kept, pterms, pkept = [], [], [], []
     nviol0 = len(ctx.violations)
     for spec in specs:
